@@ -9,7 +9,7 @@ ENV = ("Assumes the environment contracts E1-E9 of DESIGN 4.3 (documented behavi
        "return or raise and do not tamper with the tree), cooperative scheduling (A-COOP), wall clock = loop clock with real arithmetic (A-CLOCK), "
        "the footprint/rely argument of DESIGN 4.4 (other coroutines write nothing this activation reads except task states, the clock and _running), "
        "the python-semantics encoding of DESIGN 3.3 and the K-lemma instances; admissible tree = closed, acyclic, fresh members at every level. "
-       "_set_sched_ids is used under an assumed contract (frame only). ")
+       "co_run uses _set_sched_ids (for its messages only) under an assumed frame-only contract. ")
 CLAIMED = {
  'C01': dict(cat='proof', design='6/C01',
    text="Loop invariants I2 (one task per job, linked both ways) and I3 (a member has a task only if every requirement's task is finished) of "
@@ -85,7 +85,9 @@ CLAIMED = {
         "loop invariants T0-T4 discharged for an uninterpreted job set and requirement relation (no bound on the graph). "
         "Postconditions: normal exhaustion => every member yielded exactly once, positions form a linear extension, and no "
         "non-empty self-supporting subset exists (acyclic); raise => the unmarked members are such a subset (cyclic); "
-        "termination variant of the marking loop. A bounded concrete cross-check of the real functions (all digraphs <= 4 nodes) "
+        "termination variant of the marking loop. Scheduler.check_cycles (nested): True => every scheduler of the subtree is acyclic, False => some "
+        "scheduler of the subtree has a cycle, through a consumer loop over the generator (eager model with a generator-undisturbed obligation). "
+        "_set_sched_ids: ids strictly increase along requirements. A bounded concrete cross-check of the real functions (all digraphs <= 4 nodes) "
         "runs alongside and is not counted as proof.",
    note="Assumes: closed scheduler (precondition, as in the statement); python semantics encoding of DESIGN 3.3 (ints mathematical, "
         "identity equality, arbitrary set iteration order); finite-cardinality lemma instances K2-K4; attribute reads do not raise. "
@@ -117,7 +119,9 @@ CLAIMED = {
    tech=TECH),
  'C20': dict(cat='other', design='6/C20',
    text="Mostly bounded. Under contract: PureScheduler.topological_order (every member yielded exactly once, requirements first), which orders the "
-        "numbering, the node statements and the listing. The statement itself is about the text dot_format() returns and what list() prints; no contract within "
+        "numbering, the node statements and the listing; and the numbering itself: _set_sched_ids / Scheduler._set_sched_id / AbstractJob._set_sched_id "
+        "assign tree-wide pairwise distinct numbers (each subtree a contiguous interval, a scheduler before its content, a requirement before what "
+        "requires it), for trees of any size and depth. The statement itself is about the text dot_format() returns and what list() prints; no contract within "
         "reach of the SMT encoding decides a string grammar, so the deciding part is a bounded check of the real code: an independent DOT-subset parser "
         "reads the output back and compares nodes, clusters (nesting), edges (with ltail/lhead resolved), labels after unquoting and the flag attributes with "
         "the tree, and the output of list() is read back, over the enumerated trees stated in the evidence. Labelled bounded, never counted as proved.",
@@ -132,8 +136,8 @@ CLAIMED = {
         "sets closed under the neighbour relation (both inclusions, the 'least' direction for an arbitrary closed set); all loop "
         "invariants and the termination variant are discharged without bound on the graph.",
    note="Assumes: closed scheduler for the successor-based queries, start jobs are members (as in the statement), encoding of DESIGN 3.3, "
-        "K-lemma instances. 'Least closed set = reachable through >= 1 links' is lemma L2 (paper/Lean, not SMT). iterate_jobs is so far "
-        "covered by the bounded part only.", tech=TECH),
+        "K-lemma instances. 'Least closed set = reachable through >= 1 links' is lemma L2 (paper, not SMT). iterate_jobs / _iterate_jobs are "
+        "under contract as generators (every node of the tree yielded exactly once, schedulers iff asked) over the tree vocabulary owner/under (L5).", tech=TECH),
 }
 
 def main():
